@@ -826,6 +826,7 @@ fn congress_real_clock(ctx: &mut Ctx) {
         for _iv in 0..12 {
             calls.lock().unwrap().clear();
             let mut rates: [Option<f32>; 3] = [None; 3];
+            let t_pass = std::time::Instant::now();
             for (g, vol) in [(0usize, 400u32), (1, 60), (2, 2)] {
                 for _ in 0..vol {
                     let n0 = calls.lock().unwrap().len();
@@ -843,8 +844,11 @@ fn congress_real_clock(ctx: &mut Ctx) {
                     failure = Some(Fail::new("congress:rate-out-of-range", format!("rate {r}")));
                 }
             }
+            // the two rates belong to one rate computation only if no second rollover fell into
+            // this pass: a pass that took longer than the interval is not compared (never failed)
+            let one_computation = t_pass.elapsed() < std::time::Duration::from_micros(1500);
             if let (Some(h), Some(r)) = (rates[0], rates[2]) {
-                if (r as f64) < h as f64 * (1.0 - 1e-5) {
+                if one_computation && (r as f64) < h as f64 * (1.0 - 1e-5) {
                     failure = Some(Fail::new(
                         "congress:rarer-group-sampled-less",
                         format!("rare group rate {r} < heavy group rate {h}"),
